@@ -104,7 +104,8 @@ def check_state(t: E.Tally, gwy, w, rep: dict, where: str, eav: bool, max_zones:
         try:
             SCH_GLOBAL_SCHEMAS(json.loads(json.dumps(s)))
         except Exception as e:  # noqa: BLE001
-            t.bad(f"C15:schema-rejected-by-validator:{name}", f"{where}: {str(e)[:200]}", rep)
+            nufc = max((len(v.get("underfloor_heating") or {}) for v in schema.values() if isinstance(v, dict)), default=0)
+            t.bad(f"C15:schema-rejected-by-validator:{name}" + (":more-than-3-ufh-controllers" if nufc > 3 else ""), f"{where}: {str(e)[:200]}", rep)
             return
     for key, what in graph_invariants(gwy, max_zones):
         t.bad(key, f"{where}: {what}", rep)
@@ -292,6 +293,60 @@ def gen_schemas(quick: bool):
                     yield s2
 
 
+def gen_schemas_2(quick: bool):
+    """More shapes the validator accepts: 1-3 UFH controllers (with and without configured circuits, plus one more listed as the
+    controller's orphan), a second controller named as a zone's sensor, one device in two places of two controllers."""
+    ctl, ctl2 = "01:111111", "01:222222"
+    base = {"main_tcs": ctl, ctl: {"system": {"appliance_control": "10:111111"}, "zones": {"00": {"class": "underfloor_heating", "sensor": "34:111111", "actuators": []}}}}
+    ufcs = ("02:111111", "02:222222", "02:333333")
+    for n in (1, 2, 3):
+        for circ in (None, {}, {"circuits": None}, {"circuits": {"00": {"zone_idx": "00"}}}, {"circuits": {"00": {"zone_idx": "00"}, "01": {}}}):
+            for extra in ((), ("02:444444",)):
+                sch = json.loads(json.dumps(base))
+                sch[ctl]["underfloor_heating"] = {u: circ for u in ufcs[:n]}
+                if extra:
+                    sch[ctl]["orphans"] = list(extra)
+                yield sch
+    for sensor in (ctl2, ctl):
+        for idx in ("00", "01"):
+            sch = json.loads(json.dumps(base))
+            sch[ctl]["zones"] = {idx: {"class": "radiator_valve", "sensor": sensor, "actuators": ["04:111111"]}}
+            sch[ctl2] = {"system": {"appliance_control": "13:666666"}, "zones": {"01": {"class": "zone_valve", "sensor": "34:444444", "actuators": ["13:777777"]}}}
+            yield sch
+            s3 = json.loads(json.dumps(sch))
+            s3[ctl2] = {"zones": {"01": {}}}
+            yield s3
+    for shared in ("34:111111", "13:666666", "07:111111"):
+        sch = json.loads(json.dumps(base))
+        sch[ctl]["zones"]["00"] = {"class": "radiator_valve", "sensor": "34:111111", "actuators": []}
+        sch[ctl]["stored_hotwater"] = {"sensor": "07:111111"}
+        sch[ctl2] = {"system": {"appliance_control": "13:666666"}, "zones": {"01": {"class": "zone_valve", "sensor": "34:444444", "actuators": ["13:777777"]}}}
+        if shared[:2] == "34":
+            sch[ctl2]["zones"]["01"]["sensor"] = shared
+        elif shared[:2] == "13":
+            sch[ctl]["system"]["appliance_control"] = shared
+        else:
+            sch[ctl2]["stored_hotwater"] = {"sensor": shared}
+        yield sch
+
+
+def _one_device_two_places(sch: dict) -> bool:
+    """Does the configuration name one device in two places (two controllers' subsystems, or a controller as a zone sensor of another)?"""
+    seen: dict = {}
+    ctls = [k for k in sch if k[2:3] == ":"]
+    for c in ctls:
+        v = sch[c]
+        ids = [v.get("system", {}).get("appliance_control")] + list((v.get("stored_hotwater") or {}).values()) + list(v.get("underfloor_heating") or {})
+        for z in (v.get("zones") or {}).values():
+            ids += [z.get("sensor")] + list(z.get("actuators") or [])
+        for x in ids:
+            if x and (x in seen and seen[x] != c or (x in ctls and x != c)):
+                return True
+            if x:
+                seen[x] = c
+    return False
+
+
 def _orph_tag(sch: dict) -> str:
     """':tcs-orphans' when the schema lists a non-UFC device in a controller's own 'orphans' (a recorded finding)."""
     for v in sch.values():
@@ -300,13 +355,51 @@ def _orph_tag(sch: dict) -> str:
     return ""
 
 
+def judge_generated(t: E.Tally, sch: dict) -> bool:
+    """All clauses for one generated configuration; -> True if it was loaded (non-trivial)."""
+    rep = {"schema": sch}
+    w = G.GwyWorld()
+    try:
+        try:
+            gwy = w.add_gateway(config={"disable_discovery": True, "enforce_known_list": False}, **json.loads(json.dumps(sch)))
+        except Exception as e:  # noqa: BLE001
+            if _one_device_two_places(sch) and type(e).__name__ == "SystemSchemaInconsistent":
+                t.by["inconsistent-schema-refused"] += 1  # (the inconsistency is reported: what the statement asks for)
+                return False
+            t.bad(f"C15:accepted-schema-does-not-load:{type(e).__name__}:{GC._origin(e)}{_orph_tag(sch)}", f"{json.dumps(sch)[:200]}: {str(e)[:140]}", rep)
+            return False
+        if _one_device_two_places(sch):
+            # loaded all the same: then the result must at least be consistent and must not have lost a controller silently
+            if set(gwy.system_by_id) != {k for k in sch if k[2:3] == ":"}:
+                t.bad("C15:inconsistent-schema-loads-and-loses-a-controller", f"{json.dumps(sch)[:260]} -> controllers {sorted(gwy.system_by_id)}", rep)
+            check_state(t, gwy, w, rep, "generated (inconsistent) schema", False, 12)
+            return True
+        # what was configured is what is reported
+        topo = topology(gwy)
+        for cid in (k for k in sch if k[2:3] == ":"):
+            want_z = {i: (z.get("class"), z.get("sensor"), tuple(sorted(z.get("actuators") or []))) for i, z in sch[cid].get("zones", {}).items()}
+            got_z = topo.get(cid, {}).get("zones", {})
+            if {k: v for k, v in got_z.items()} != want_z:
+                t.bad("C15:loaded-zones-differ-from-configuration", f"{json.dumps(sch[cid].get('zones'))[:160]} -> {str(got_z)[:160]}", rep)
+            want_d = sch[cid].get("stored_hotwater", {})
+            got_d = {k: v for k, v in topo.get(cid, {}).get("dhw", {}).items() if v}
+            if got_d != want_d:
+                t.bad("C15:loaded-dhw-differs-from-configuration", f"{want_d} -> {got_d}", rep)
+            if topo.get(cid, {}).get("app") != sch[cid].get("system", {}).get("appliance_control"):
+                t.bad("C15:loaded-appliance-differs-from-configuration", f"{sch[cid].get('system')} -> {topo.get(cid, {}).get('app')}", rep)
+        check_state(t, gwy, w, rep, "generated schema", False, 12)
+        return True
+    finally:
+        w.close()
+
+
 def shard_gen(arg) -> E.Tally:
     i, n, quick = arg
     from ramses_rf.schemas import SCH_GLOBAL_SCHEMAS
 
     logcap.install()
     t = E.Tally()
-    for j, sch in enumerate(gen_schemas(quick)):
+    for j, sch in enumerate(itertools.chain(gen_schemas(quick), gen_schemas_2(quick))):
         if j % n != i:
             continue
         t.n += 1
@@ -315,34 +408,10 @@ def shard_gen(arg) -> E.Tally:
         except Exception:  # noqa: BLE001
             t.by["rejected-by-validator"] += 1
             continue
-        rep = {"schema": sch}
-        w = G.GwyWorld()
-        try:
-            try:
-                gwy = w.add_gateway(config={"disable_discovery": True, "enforce_known_list": False}, **json.loads(json.dumps(sch)))
-            except Exception as e:  # noqa: BLE001
-                t.bad(f"C15:accepted-schema-does-not-load:{type(e).__name__}:{GC._origin(e)}{_orph_tag(sch)}", f"{json.dumps(sch)[:200]}: {str(e)[:140]}", rep)
-                continue
+        if judge_generated(t, sch):
             t.nontrivial += 1
-            # what was configured is what is reported
-            ctl = sch["main_tcs"]
-            topo = topology(gwy)
-            for cid in (k for k in sch if k[2:3] == ":"):
-                want_z = {i: (z.get("class"), z.get("sensor"), tuple(sorted(z.get("actuators") or []))) for i, z in sch[cid].get("zones", {}).items()}
-                got_z = topo.get(cid, {}).get("zones", {})
-                if {k: v for k, v in got_z.items()} != want_z:
-                    t.bad("C15:loaded-zones-differ-from-configuration", f"{json.dumps(sch[cid].get('zones'))[:160]} -> {str(got_z)[:160]}", rep)
-                want_d = sch[cid].get("stored_hotwater", {})
-                got_d = {k: v for k, v in topo.get(cid, {}).get("dhw", {}).items() if v}
-                if got_d != want_d:
-                    t.bad("C15:loaded-dhw-differs-from-configuration", f"{want_d} -> {got_d}", rep)
-                if topo.get(cid, {}).get("app") != sch[cid].get("system", {}).get("appliance_control"):
-                    t.bad("C15:loaded-appliance-differs-from-configuration", f"{sch[cid].get('system')} -> {topo.get(cid, {}).get('app')}", rep)
-            check_state(t, gwy, w, rep, "generated schema", False, 12)
             if j % 997 == 0:
                 t.sample(sch)
-        finally:
-            w.close()
     t.by["schemas"] = t.n
     return t
 
@@ -400,21 +469,7 @@ def replay(rep: dict):
     logcap.install()
     t = E.Tally()
     if "schema" in rep:
-        w = G.GwyWorld()
-        try:
-            gwy = w.add_gateway(**json.loads(json.dumps(rep["schema"])))
-            check_state(t, gwy, w, rep, "generated schema", False, 12)
-            # configuration-vs-report clauses
-            tt = shard_gen((0, 1, True)) if False else None
-        except Exception as e:  # noqa: BLE001
-            t.bad(f"C15:accepted-schema-does-not-load:{type(e).__name__}:{GC._origin(e)}{_orph_tag(rep['schema'])}", str(e)[:100], rep)
-        finally:
-            w.close()
-        for q in (True, False):
-            for j, sch in enumerate(gen_schemas(q)):
-                if sch == rep["schema"]:
-                    t.merge(_one_gen(sch))
-                    return [(k, v["what"]) for k, v in t.viol.items()]
+        judge_generated(t, rep["schema"])
         return [(k, v["what"]) for k, v in t.viol.items()]
     lines = GC.log(rep["log"])
     if rep.get("edit") is None:
@@ -430,23 +485,5 @@ def replay(rep: dict):
 def _one_gen(sch) -> E.Tally:
     """Re-run the generated-schema clauses for one schema."""
     t = E.Tally()
-    rep = {"schema": sch}
-    w = G.GwyWorld()
-    try:
-        gwy = w.add_gateway(config={"disable_discovery": True, "enforce_known_list": False}, **json.loads(json.dumps(sch)))
-        topo = topology(gwy)
-        for cid in (k for k in sch if k[2:3] == ":"):
-            want_z = {i: (z.get("class"), z.get("sensor"), tuple(sorted(z.get("actuators") or []))) for i, z in sch[cid].get("zones", {}).items()}
-            if topo.get(cid, {}).get("zones", {}) != want_z:
-                t.bad("C15:loaded-zones-differ-from-configuration", "replay", rep)
-            want_d = sch[cid].get("stored_hotwater", {})
-            if {k: v for k, v in topo.get(cid, {}).get("dhw", {}).items() if v} != want_d:
-                t.bad("C15:loaded-dhw-differs-from-configuration", "replay", rep)
-            if topo.get(cid, {}).get("app") != sch[cid].get("system", {}).get("appliance_control"):
-                t.bad("C15:loaded-appliance-differs-from-configuration", "replay", rep)
-        check_state(t, gwy, w, rep, "generated schema", False, 12)
-    except Exception as e:  # noqa: BLE001
-        t.bad(f"C15:accepted-schema-does-not-load:{type(e).__name__}:{GC._origin(e)}{_orph_tag(rep['schema'])}", str(e)[:100], rep)
-    finally:
-        w.close()
+    judge_generated(t, sch)
     return t
